@@ -112,7 +112,8 @@ def impl(d):
         return "OK:%d" % int.from_bytes(p.to_bytes(), "big")
     if k == "wif":
         p = PrivateKey(secret_exponent=d["d"])
-        w = p.to_wif(compressed=d["comp"])
+        # compressed is the documented default: rely on it for half of the compressed cases
+        w = p.to_wif() if (d["comp"] and d["d"] % 2 == 0) else p.to_wif(compressed=d["comp"])
         back = PrivateKey(wif=w); back2 = PrivateKey.from_wif(w)
         return w.encode().hex() + "|OK:%d" % int.from_bytes(back.to_bytes(), "big") + "|%d" % (back2.to_bytes() == back.to_bytes())
     if k == "wifin":
@@ -122,7 +123,7 @@ def impl(d):
         priv = PrivateKey(secret_exponent=d["d"])
         pk = priv.get_public_key()
         outs = [_pub_out(pk)]
-        for enc in (pk.to_hex(True), pk.to_hex(False), pk.to_x_only_hex()):
+        for enc in (pk.to_hex() if d["d"] % 2 == 0 else pk.to_hex(True), pk.to_hex(False), pk.to_x_only_hex()):
             outs.append(guarded(lambda: _pub_out(PublicKey(enc))))
         return "||".join(outs)
     if k == "pubraw":
